@@ -56,6 +56,10 @@ type Config struct {
 	// AcceptOneIn > 0 replaces the rate: the predicate accepts one candidate in that many (10^4, 10^5): tens of thousands
 	// of consecutive retries per key, the "large fraction" of the property taken seriously. Few operations per run.
 	AcceptOneIn int `json:"accept_one_in,omitempty"`
+	// Bare: no double at all - the package under test is handed the repository's own Curve and Key objects, the way an
+	// application does. Everything the double injects is off (it is a fault-free configuration), but code in slip10
+	// that recognises the concrete key types (a type switch "for speed") is only reached this way.
+	Bare bool `json:"bare,omitempty"`
 	Warp           bool   `json:"warp,omitempty"`         // the pluggable curve maps candidates to scalars at the edges of the valid range (elliptic curves only)
 	WrapInvalid    bool   `json:"wrap_invalid,omitempty"` // retryable faults are returned as an error wrapping ErrInvalidKey
 	Ops            []Op   `json:"ops"`
@@ -408,7 +412,11 @@ func Run(cfg *Config) proto.End {
 	if modelCurve.EC != nil {
 		r.w.order = modelCurve.EC.N
 	}
-	fc := faultCurve{r.w, realCurve}
+	var fc slip10.Curve = faultCurve{r.w, realCurve}
+	if cfg.Bare {
+		fc = realCurve
+		r.res.Probes["real_curve_and_key_types_without_the_double"] = 1
+	}
 	for i := range cfg.Ops {
 		if r.stop {
 			break
@@ -455,7 +463,7 @@ func Run(cfg *Config) proto.End {
 	return r.res
 }
 
-func (r *runState) step(i int, op *Op, fc faultCurve, mc *ref.SlipCurve) {
+func (r *runState) step(i int, op *Op, fc slip10.Curve, mc *ref.SlipCurve) {
 	w := r.w
 	w.calls, w.rejects, w.permAt, w.wrapped, w.permFired, w.opIndex = 0, 0, op.PermAt, op.Wrapped, false, i
 	mf := &ref.Faults{Reject: w.reject, Permanent: w.permanent}
@@ -607,7 +615,11 @@ func (r *runState) step(i int, op *Op, fc faultCurve, mc *ref.SlipCurve) {
 		cc = append(cc, make([]byte, 32)...)[:32]
 		w.constShift[string(parentPub)] = sInt.FillBytes(make([]byte, 32))
 		model, kind = &ref.XKey{Curve: mc, Private: false, Key: parentPub, ChainCode: cc}, ref.OK
-		real = &slip10.ExtendedKey{ChainCode: append([]byte{}, cc...), Key: &faultKey{w: w, inner: &elliptic.PublicKey{X: x, Y: y, Curve: stdCurve(r.cfg.Curve)}}}
+		var imported slip10.Key = &elliptic.PublicKey{X: x, Y: y, Curve: stdCurve(r.cfg.Curve)}
+		if !r.cfg.Bare {
+			imported = &faultKey{w: w, inner: imported}
+		}
+		real = &slip10.ExtendedKey{ChainCode: append([]byte{}, cc...), Key: imported}
 		r.res.Probes["imported_parent_of_special_point"] = 1
 	case "public":
 		api = "Public"
@@ -683,7 +695,7 @@ func (r *runState) step(i int, op *Op, fc faultCurve, mc *ref.SlipCurve) {
 			r.violate("model-divergence:"+bad, fmt.Sprintf("%s: %s differs from the specification (implementation %s, reference %s)", where, bad, describeReal(real), describeModel(model)), sig)
 			return
 		}
-		if op.Kind != "public" && w.calls < mf.Calls() {
+		if !r.cfg.Bare && op.Kind != "public" && w.calls < mf.Calls() {
 			// fewer collaborator calls than the specification's retry chain has steps cannot produce the specified key;
 			// more are allowed (an implementation may validate a candidate twice)
 			r.violate("model-divergence:retry-count", fmt.Sprintf("%s: implementation asked the curve %d times, the specification's retry chain has %d steps", where, w.calls, mf.Calls()), sig)
@@ -929,6 +941,18 @@ func Gen(seed uint64, tier string) *Config {
 	}
 	for i := range c.Ops {
 		c.Ops[i].Observe = pickS(r, "", "", "neuter-first", "lazy", "lazy")
+	}
+	if c.RejectPerMille == 0 && r.IntN(2) == 0 {
+		c.Bare, c.Warp, c.WrapInvalid = true, false, false
+		var ops []Op
+		for _, o := range c.Ops {
+			o.PermAt, o.OverlapAt = 0, 0
+			if o.Kind != "import" {
+				ops = append(ops, o)
+			}
+		}
+		c.Ops = ops
+		return c
 	}
 	if x := r.IntN(1500); x < 11 {
 		// a curve that accepts hardly anything: 10 000 or (rarely) 100 000 candidates per key on average
